@@ -46,6 +46,20 @@ class PubKey(object):
     def hash_prefix(self):
         return b'\x99' + len(self.body).to_bytes(2, 'big') + self.body
 
+    def canonical_body(self):
+        """The body re-encoded from the decoded values (canonical MPI bit counts).  Two bodies
+        with the same canonical form carry the same key; used to decide whether a channel
+        fault changed the key *material* or only its encoding."""
+        if self.alg in (ECDSA, EDDSA, ECDH):
+            return build_pub_body(self.created, self.alg, oid=self.oid, point=self.point, kdf=self.kdf)
+        order = {RSA_ES: ('n', 'e'), RSA_E: ('n', 'e'), RSA_S: ('n', 'e'), DSA: ('p', 'q', 'g', 'y'), ELG: ('p', 'g', 'y'),
+                 ELG_ES: ('p', 'g', 'y')}[self.alg]
+        return build_pub_body(self.created, self.alg, [self.mpis[n] for n in order])
+
+    def canonical_prefix(self):
+        b = self.canonical_body()
+        return b'\x99' + len(b).to_bytes(2, 'big') + b
+
 
 def parse_pub(body):
     """Parse the public portion at the start of body; returns PubKey with .publen set."""
